@@ -16,7 +16,8 @@ Ev == Trace[l]
 Check == IF ~Ev.hit THEN "ok"
          ELSE IF Ev.hang THEN "fault-hang"
          ELSE IF Ev.records /\ ~Ev.reported THEN "fault-absorbed"
-         ELSE IF Ev.target = "compact" /\ Ev.installed THEN "failed-compaction-installed"
+         \* ("damagecompact": an input table was damaged on disk before the compaction read it - the read of that record fails its check)
+         ELSE IF Ev.target \in {"compact", "damagecompact"} /\ Ev.installed THEN "failed-compaction-installed"
          \* the inputs of a failed compaction are untouched: the directory opens and reads like the reference map
          ELSE IF Ev.target = "compact" /\ ~Ev.reopenOk THEN "reopen-failed-after-failed-compaction"
          ELSE IF (Ev.target = "compact" \/ ~Ev.reported) /\ Ev.reopenOk /\ Ev.m # Ev.model THEN "reads-differ-after-fault"
